@@ -21,6 +21,10 @@ CATS = {
     5: dict(name="TR_throwing_move", tc=False, decl=True, nmc=False, nma=False, tdes=False),
     # trivial (defaulted) copy/move constructors and destructor, but user-provided assignment operators: not trivially copyable, no declaration -> not relocatable
     6: dict(name="user_assignment_only", tc=False, decl=None, nmc=True, nma=True, tdes=True),
+    # its own noexcept swap (found by ADL) but move operations that may throw: swapping two inline vectors of unequal size also move-constructs
+    7: dict(name="own_swap_throwing_move", tc=False, decl=None, nmc=False, nma=False, tdes=False, nsw=True),
+    # its own noexcept swap, nothrow move constructor, move assignment that may throw
+    8: dict(name="own_swap_throwing_move_assign", tc=False, decl=None, nmc=True, nma=False, tdes=False, nsw=True),
 }
 
 PRELUDE = r'''
@@ -63,6 +67,16 @@ template <int SZ, int AL> struct alignas(AL) El<SZ, AL, 6> {
   char b[SZ];
   El() = default; El(const El &) = default; El(El &&) = default; ~El() = default;
   El &operator=(const El &) noexcept; El &operator=(El &&) noexcept;
+};
+template <int SZ, int AL> struct alignas(AL) El<SZ, AL, 7> {
+  char b[SZ];
+  El(); El(const El &); El(El &&) noexcept(false); El &operator=(const El &); El &operator=(El &&) noexcept(false); ~El();
+  friend void swap(El &, El &) noexcept {}
+};
+template <int SZ, int AL> struct alignas(AL) El<SZ, AL, 8> {
+  char b[SZ];
+  El(); El(const El &); El(El &&) noexcept; El &operator=(const El &); El &operator=(El &&) noexcept(false); ~El();
+  friend void swap(El &, El &) noexcept {}
 };
 struct FixedNonTR { FixedNonTR(); FixedNonTR(const FixedNonTR &); FixedNonTR(FixedNonTR &&) noexcept; ~FixedNonTR(); int x; };
 struct StatefulNonTrivialCmp {  // a comparator that is not trivially relocatable
@@ -201,7 +215,8 @@ def expect_moves(cat, n):
     tr = is_tr(cat)
     mc = n == 0 or tr or c["nmc"]
     ma = n == 0 or tr or (c["nmc"] and c["nma"])
-    sw = n == 0 or (c["nmc"] and c["nmc"] and c["nma"])  # nothrow move constructible and nothrow swappable
+    nsw = c.get("nsw", c["nmc"] and c["nma"])  # nothrow swappable: std::swap needs nothrow move construction and assignment, unless the type has its own swap
+    sw = n == 0 or (c["nmc"] and nsw)  # documented: nothrow move constructible and nothrow swappable
     return int(mc), int(ma), int(sw)
 
 
